@@ -934,6 +934,15 @@ class Builder(object):
                   (command, name)
             raise excepting.ParseError(msg, tokens, index)
 
+        # per and for data become keyword arguments of server.reinit and may override the options above
+        if ('self' in init or
+                isinstance(init.get('period', 0.0), bool) or
+                not isinstance(init.get('period', 0.0), (int, float)) or
+                init.get('schedule', schedule) not in ScheduleNames):
+            msg = "ParseError: Building verb '%s'. Bad field self, period or schedule in data %s" % \
+                (command, list(init.items()))
+            raise excepting.ParseError(msg, tokens, index)
+
         server = serving.Server(name=name, store = self.currentStore,)
         kw = dict(period=period, schedule=schedule, sha=sha, dha=dha, prefix=prefix,)
         kw.update(init)
